@@ -147,6 +147,9 @@ def make_search(mido, base, depth):
                     out.append(('copyov', i, k))
                 out.append(('freeze', i))
                 out.append(('thaw', i))
+                if label.startswith('Message:'):
+                    # an equal message built through another site (decoder)
+                    out.append(('alt', i))
             for k in range(len(inv_overrides)):
                 out.append(('copybad', i, k))
             for k in range(len(sets)):
@@ -179,6 +182,8 @@ def make_search(mido, base, depth):
                 s.ref.append(s.ref[i])       # same object
         elif k == 'thaw':
             s.ref.append(((cls, False), dict(d)))
+        elif k == 'alt':
+            s.ref.append(((cls, frozen), dict(d)))
         elif k == 'set':
             name, v, ok = sets[op[2]]
             if ok and not frozen:
@@ -207,6 +212,11 @@ def make_search(mido, base, depth):
                 obs = ('new', new)
             elif k == 'thaw':
                 new = thaw_message(obj)
+                obs = ('new', new)
+            elif k == 'alt':
+                new = mido.Message.from_bytes(obj.bytes(), time=obj.time)
+                if s.ref[i][0][1]:
+                    new = freeze_message(new)    # keep frozenness
                 obs = ('new', new)
             elif k == 'set':
                 name, v, ok = sets[op[2]]
@@ -238,7 +248,7 @@ def make_search(mido, base, depth):
             ref_apply(s, op, obs)
         elif obs[0] == 'done':
             ref_apply(s, op, obs)
-        elif obs[0] == 'raised' and k in ('copy', 'copyov', 'freeze', 'thaw'):
+        elif obs[0] == 'raised' and k in ('copy', 'copyov', 'freeze', 'thaw', 'alt'):
             # a failed constructor-like op adds nothing; record nothing
             pass
         return obs
@@ -342,8 +352,8 @@ def make_search(mido, base, depth):
             alias.append((ids.setdefault(id(obj), len(ids)),
                           ids.setdefault(id(vars(obj)), len(ids))))
         return (tuple(alias), tuple(
-            (kind_of(mido, o), tuple(sorted(
-                (k, repr(v)) for k, v in vars(o).items())))
+            (kind_of(mido, o), tuple(
+                (k, repr(v)) for k, v in vars(o).items()))   # insertion order kept
             for o in s.pool))
 
     return Search(build, ops, apply, check, key, max_depth=depth)
@@ -413,7 +423,7 @@ def run():
         f'UnknownMetaMessage); from each, every history of length <= {depth} '
         f'(to the closure of the deduplicated state graph) over: b=a.copy(), '
         f'a.copy(**valid overrides), a.copy(**invalid overrides), '
-        f'freeze_message, thaw_message, valid/invalid setattr, delattr, '
+        f'freeze_message, thaw_message, an equal message rebuilt through the decoder, valid/invalid setattr, delattr, '
         f'data+=, hash, ==, dict lookup, on a pool of <= {POOL_MAX} objects. '
         f'Reference: plain dict per object, class table. State key includes '
         f'object and __dict__ identity so aliasing is never merged away')
